@@ -22,8 +22,13 @@
    `x.map_or(Ok(d), |v| f(v))`, `match x { None => Ok(d), Some(v) => f(v) }`, `let Some(v) = x else { return Ok(d) }; f(v)`
    all give the same two cases.
 
-2. `sequence_of` — how a list value is built from another list: an order-keeping iterator pipeline with exactly one `map`,
-   or a fresh Vec that receives exactly one `push` per element of a `for` loop which only stops early by returning an error.
+2. `Normal` — normal form of a value with workspace helpers inlined and success payloads in `mk_unwrap` form (to a fixed
+   point), remembering with which arguments each helper was entered.
+
+3. `sequence_of` — how a list value is built from another list: an order-keeping iterator pipeline with exactly one `map`,
+   or a fresh Vec that receives exactly one `push` per element of a `for` loop which only stops early by returning an error
+   (also when that loop lives in a helper that `Normal` inlined).  `chain_of` — the consecutive passes (each a
+   `sequence_of`) that lead from a source list to a result list, whether written in one function or several.
 """
 import re
 
@@ -450,6 +455,57 @@ class Cases:
 
 
 # ------------------------------------------------------------------------------------------------------------------
+# normal form with remembered call contexts
+# ------------------------------------------------------------------------------------------------------------------
+_LEAF = ('const', 'param', 'fnitem', 'constitem', 'unknown', 'closure_env', 'upvar')
+
+
+class Normal:
+    """Normal form of a value of function f: calls to workspace functions (not in `keep`) are replaced by what they return
+    and success payloads are brought to the `mk_unwrap` form until nothing changes, so that it does not matter in which
+    function (entry point, private helper, closure of an and_then / map) a piece of the computation is written.
+    `entered[g]` remembers the argument values (in the entry function's terms) with which helper g was entered: a value
+    that can only be described inside g (a Vec filled by a loop of g) is translated with them."""
+
+    def __init__(self, prog, sl, keep=()):
+        self.prog, self.sl, self.keep = prog, sl, set(keep)
+        self.entered = {}
+
+    def nf(self, v, depth=8):
+        if not isinstance(v, tuple) or not v or depth < 0 or v[0] in _LEAF:
+            return v
+        out = tuple(self.nf(x, depth) if isinstance(x, tuple) else x for x in v)
+        if out[0] == 'call' and len(out) > 2 and out[1] not in self.keep:
+            g = self.prog.fns.get(out[1])
+            if g is not None and g.kind != 'Closure':
+                iv = self.sl.inline_call(out)
+                if iv is not None and iv != out:
+                    m = {(g.path, i): a for i, a in enumerate(out[2]) if i < g.argc}
+                    if m not in self.entered.setdefault(g.path, []):
+                        self.entered[g.path].append(m)
+                    return self.nf(iv, depth - 1)
+        r = out
+        if out[0] == 'unwrap' and len(out) == 2 and isinstance(out[1], tuple) and out[1] and isinstance(out[1][0], str):
+            r = self.sl.mk_unwrap(out[1], 1)
+        elif out[0] == 'field' and len(out) == 3 and isinstance(out[2], str):
+            r = self.sl._field(out[1], out[2])
+        elif out[0] == 'variant' and len(out) == 3 and isinstance(out[2], str):
+            r = self.sl._variant(out[1], out[2])
+        if r != out:
+            return self.nf(r, depth - 1)
+        return out
+
+    def payload(self, f):
+        """success payload of f in normal form"""
+        return self.nf(self.sl.mk_unwrap(self.sl.local(f, 0), 1))
+
+    def context_of(self, g):
+        """the one argument binding with which g was entered, or None"""
+        ms = self.entered.get(g.path, [])
+        return ms[0] if len(ms) == 1 else None
+
+
+# ------------------------------------------------------------------------------------------------------------------
 # element-wise list construction
 # ------------------------------------------------------------------------------------------------------------------
 IT = iters.IT
@@ -463,14 +519,22 @@ def unwrapped(v):
     return v
 
 
+def _pipeline_call(name):
+    return name.startswith(IT) or name in iters.COLLECTING or name in iters.SAME or iters._is_source(name)
+
+
 def adapters(v):
-    """names of the nested iterator calls from the outermost down to the source"""
+    """names of the nested iterator calls of ONE pipeline from the outermost down to its source collection, and that source
+    (with its unwrap wrappers).  The collected result of an inner pipeline is a collection of its own: `b.collect()` over
+    `a.collect()?.iter()` are two pipelines, whether they are written in one function or in two"""
     out = []
+    raw = v
     v = unwrapped(v)
-    while v[0] == 'call' and v[2]:
+    while v[0] == 'call' and v[2] and _pipeline_call(v[1]) and not (out and v[1] in iters.COLLECTING):
         out.append(v[1])
-        v = unwrapped(v[2][0])
-    return out, v
+        raw = v[2][0]
+        v = unwrapped(raw)
+    return out, raw
 
 
 class Seq:
@@ -485,20 +549,27 @@ class Seq:
         self.one_to_one = False   # one output per input, in order
 
 
-def sequence_of(prog, sl, f, v):
-    """how the list value v (in the terms of function f) is made from another list"""
+def sequence_of(prog, sl, f, v, N=None):
+    """how the list value v (in the terms of function f) is made from another list.  N (a `Normal`): the normal form v was
+    taken from; a list filled by a loop of a helper that N inlined is described there and translated into f's terms"""
     v0 = unwrapped(v)
     names, src = adapters(v0)
     if names and names[0] == IT + 'collect':
         s = Seq('pipeline', names, src, iters.elem_of(src), None)
-        maps = [x for x in walk(v0) if x[0] == 'call' and x[1] == IT + 'map' and len(x[2]) == 2]
+        maps, x = [], v0
+        for _ in names:
+            if x[1] == IT + 'map' and len(x[2]) == 2:
+                maps.append(x)
+            x = unwrapped(x[2][0])
         s.one_to_one = set(names) <= ORDER_KEEPING and names.count(IT + 'map') == 1
         if s.one_to_one and maps:
             s.closure = maps[0][2][1]
-            al = iters.alts(sl, v0)
-            if len(al) == 1 and not al[0][2] and al[0][1] is not None and canon(al[0][1]) == canon(src):
-                s.elem = iters.elem_of(al[0][1])
-                s.mapped = al[0][0]
+            inner = unwrapped(src)
+            al = iters.alts(sl, src)
+            if (inner[0] == 'call' and inner[1] in iters.COLLECTING) or \
+                    (len(al) == 1 and not al[0][2] and al[0][1] is not None and canon(al[0][1]) == canon(src)):
+                # (a collected inner pipeline is looked at on its own: chain_of)
+                s.mapped = sl.apply_closure(s.closure, (s.elem,))
             else:
                 s.one_to_one, s.why = False, 'the pipeline does not visit each element of the source exactly once'
         else:
@@ -507,9 +578,17 @@ def sequence_of(prog, sl, f, v):
     if v0[0] == 'call' and v0[1].startswith('std::vec::Vec::<') and v0[1].endswith(('::new', '::with_capacity')) and len(v0) > 3 and v0[3]:
         g = prog.fns.get(v0[3][0])
         s = Seq('loop', [], ('unknown', 'collection'), None, None)
-        if g is None or g.path != f.path:
+        ctx = None
+        if g is not None and g.path != f.path:
+            ctx = N.context_of(g) if N is not None else None
+            if ctx is None:
+                s.why = 'the list is built in another function'
+                return s
+        if g is None:
             s.why = 'the list is built in another function'
             return s
+        # (the element mapping keeps its calls: the case analysis enters them function by function)
+        tr = (lambda x: subst(x, ctx, sl)) if ctx is not None else (lambda x: x)
         mk = [c for c in g.calls if c.bb == v0[3][1]]
         if len(mk) != 1 or not mk[0].dest or len(mk[0].dest) != 1:
             s.why = 'cannot locate the list'
@@ -562,9 +641,23 @@ def sequence_of(prog, sl, f, v):
         if not (set(cnames) <= ORDER_KEEPING and IT + 'map' not in cnames and len(al) == 1 and not al[0][2] and al[0][1] is not None):
             s.why = 'the loop does not visit each element of one collection once, in order'
             return s
-        s.names, s.coll = cnames, csrc
-        s.elem = iters.elem_of(al[0][1])
-        s.mapped = sl.operand(g, p.args[1])
-        s.one_to_one = canon(unwrapped(al[0][1])) == canon(csrc)
+        s.names, s.coll = cnames, (N.nf(tr(csrc)) if ctx is not None else csrc)
+        s.elem = tr(iters.elem_of(al[0][1]))
+        s.mapped = tr(sl.operand(g, p.args[1]))
+        s.one_to_one = canon(unwrapped(al[0][1])) == canon(unwrapped(csrc))
         return s
     return Seq(None, names, src, None, None, why='adapters %s' % [n.split('::')[-1] for n in names])
+
+
+def chain_of(prog, sl, N, f, v):
+    """the passes that make the list value v: ([Seq, ..] from the last pass back to the first, the list the first starts from)"""
+    out = []
+    for _ in range(6):
+        s = sequence_of(prog, sl, f, v, N)
+        if s.kind is None:
+            break
+        out.append(s)
+        if s.coll is None or unwrapped(s.coll)[0] == 'unknown':
+            break
+        v = s.coll
+    return out, v
